@@ -995,4 +995,332 @@ example : runTraceT {} [.restart, .pin 4, .snapshot, .pin 1, .shutdown, .clean, 
     runTrace {} [.restart, .pin 4, .snapshot, .pin 1, .shutdown, .clean, .offline, .importSt [6, 4, 2], .restart,
       .unpin 6, .pin 3, .shutdown, .offline] := by decide
 
+
+/-! ### Round 8 final: the term-aware folder REFINES the intended one on every history without a metadata-keeping import
+(induction over the step list; `Sim` = same up / init / live, content of the newest snapshot = the intended folder's snapshot,
+a running node's (lastTerm, lastIndex) at or above every snapshot and log entry, a stopped node without log behind its newest snapshot) -/
+
+theorem ft_newest_none : ∀ l : List Snap, newest l = none → l = []
+  | [], _ => rfl
+  | a :: rest, h => by
+    simp only [newest] at h
+    split at h
+    · cases h
+    · split at h <;> cases h
+
+theorem ft_newest_ge : ∀ (l : List Snap) (n : Snap), newest l = some n → ∀ b ∈ l, leTI b n.term n.idx
+  | [], _, h => by simp [newest] at h
+  | a :: rest, n, h => by
+    intro b hb
+    simp only [newest] at h
+    cases hr : newest rest with
+    | none =>
+      have := ft_newest_none rest hr
+      subst this
+      simp only [hr] at h
+      cases h
+      simp at hb
+      subst hb
+      exact Or.inr ⟨rfl, Nat.le_refl _⟩
+    | some m =>
+      have ih := ft_newest_ge rest m hr
+      simp only [hr] at h
+      by_cases ham : atLeast a m = true
+      · simp only [ham, if_true] at h
+        cases h
+        have ham' : m.term < a.term ∨ (a.term = m.term ∧ m.idx ≤ a.idx) := by simpa [atLeast] using ham
+        rcases List.mem_cons.mp hb with hb | hb
+        · subst hb; exact Or.inr ⟨rfl, Nat.le_refl _⟩
+        · have := ih b hb
+          unfold leTI at this ⊢
+          omega
+      · simp only [ham] at h
+        cases h
+        have ham' : ¬ (n.term < a.term ∨ (a.term = n.term ∧ n.idx ≤ a.idx)) := by simpa [atLeast] using ham
+        rcases List.mem_cons.mp hb with hb | hb
+        · subst hb
+          unfold leTI
+          omega
+        · exact ih b hb
+
+theorem ft_newest_mem (l : List Snap) (n : Snap) (h : newest l = some n) : n ∈ l := by
+  induction l with
+  | nil => simp [newest] at h
+  | cons a rest ih =>
+    simp only [newest] at h
+    cases hr : newest rest with
+    | none => simp only [hr] at h; cases h; simp
+    | some m =>
+      simp only [hr] at h
+      split at h
+      · cases h; simp
+      · cases h; exact List.mem_cons_of_mem _ (ih hr)
+
+theorem ft_newest_cons_of_ge (a : Snap) (l : List Snap) (h : ∀ b ∈ l, leTI b a.term a.idx) : newest (a :: l) = some a := by
+  cases hr : newest l with
+  | none => simp [newest, hr]
+  | some m =>
+    have := h m (ft_newest_mem l m hr)
+    have ham : atLeast a m = true := by
+      unfold leTI at this
+      simp [atLeast]
+      omega
+    simp [newest, hr, ham]
+
+theorem ft_suffix_nil (i : Nat) (log : List (Nat × Nat × LOp)) (h : ∀ e ∈ log, e.1 ≤ i) : suffixFrom i log = [] := by
+  unfold suffixFrom
+  rw [List.filter_eq_nil_iff]
+  intro e he
+  have := h e (List.mem_reverse.mp he)
+  simp
+  omega
+
+theorem ft_any_false (i : Nat) (log : List (Nat × Nat × LOp)) (h : ∀ e ∈ log, e.1 ≤ i) : log.any (fun e => i < e.1) = false := by
+  rw [List.any_eq_false]
+  intro e he
+  have := h e he
+  simp
+  omega
+
+theorem sim_visible (t : TSt) (s : St) (h : Sim t s) : visibleT t = visible s := by
+  obtain ⟨hup, _, hlive, hsnap, _, _⟩ := h
+  unfold visibleT visible
+  rw [← hup, ← hsnap, hlive]
+  cases newest t.snaps <;> simp
+
+theorem sim_step (t : TSt) (s : St) (h : Sim t s) (st : Step) (hk : (stepT t st).2 ≠ .kept) :
+    Sim (stepT t st).1 (step s st).1 ∧ (stepT t st).2 = (step s st).2 := by
+  obtain ⟨tup, tinit, tlive, tsnaps, tcur, tidx, tlog, tlterm, tlidx⟩ := t
+  obtain ⟨sup, sinit, slive, ssnap⟩ := s
+  obtain ⟨hup, hinit, hlive, hsnap, hU, hD⟩ := h
+  simp only at hup hinit hlive hsnap hU hD
+  subst hup hinit hlive
+  cases tup with
+  | false =>
+    obtain ⟨d1, d2, d3⟩ := hD rfl
+    simp only at d1 d2 d3
+    cases st with
+    | pin c => exact ⟨⟨rfl, rfl, rfl, hsnap, hU, hD⟩, rfl⟩
+    | unpin c => exact ⟨⟨rfl, rfl, rfl, hsnap, hU, hD⟩, rfl⟩
+    | snapshot => exact ⟨⟨rfl, rfl, rfl, hsnap, hU, hD⟩, rfl⟩
+    | shutdown => exact ⟨⟨rfl, rfl, rfl, hsnap, hU, hD⟩, rfl⟩
+    | offline => exact ⟨⟨rfl, rfl, rfl, hsnap, hU, hD⟩, rfl⟩
+    | importSt m =>
+      cases hn : newest tsnaps with
+      | some b => simp [stepT, hn] at hk
+      | none =>
+        have h0 := ft_newest_none _ hn
+        subst h0
+        have hl := d2 rfl
+        subst hl
+        simp only [hn, Option.map_none] at hsnap
+        subst hsnap
+        refine ⟨⟨rfl, rfl, rfl, ?_, ?_, ?_⟩, ?_⟩
+        · simp [stepT, step, newest]
+        · intro h; simp [stepT, newest] at h
+        · intro _
+          simp [stepT, newest, DownInv]
+        · simp [stepT, step, newest]
+    | clean =>
+      refine ⟨⟨rfl, rfl, rfl, ?_, ?_, ?_⟩, rfl⟩
+      · simp [stepT, step, newest]
+      · intro h; simp [stepT] at h
+      · intro _; simp [stepT, DownInv, newest]
+    | restart =>
+      cases hn : newest tsnaps with
+      | none =>
+        have h0 := ft_newest_none _ hn
+        subst h0
+        have hl := d2 rfl
+        subst hl
+        simp only [hn, Option.map_none] at hsnap
+        subst hsnap
+        refine ⟨⟨rfl, ?_, ?_, ?_, ?_, ?_⟩, rfl⟩
+        · simp [stepT, step, newest]
+        · simp [stepT, step, newest, replayFrom, suffixFrom]
+        · simp [stepT, step, newest]
+        · intro _
+          simp [stepT, newest, UpInv, suffixFrom]
+        · intro h; simp [stepT] at h
+      | some b =>
+        have hb := ft_newest_mem _ _ hn
+        have hne : tsnaps.isEmpty = false := by
+          cases tsnaps with
+          | nil => cases hb
+          | cons _ _ => rfl
+        have hsuf := ft_suffix_nil b.idx tlog (d3 b hn)
+        have hany := ft_any_false b.idx tlog (d3 b hn)
+        simp only [hn, Option.map_some] at hsnap
+        subst hsnap
+        refine ⟨⟨rfl, ?_, ?_, ?_, ?_, ?_⟩, rfl⟩
+        · simp [stepT, step, hn, hany]
+        · simp [stepT, step, hn, replayFrom, hsuf]
+        · simp [stepT, step, hn]
+        · intro _
+          have hge := ft_newest_ge _ _ hn
+          have hbt := d1 b hb
+          simp only [stepT, hn, hsuf, hne, UpInv, Bool.and_false]
+          refine ⟨?_, ?_, ?_, ?_, ?_⟩
+          · simpa using hbt
+          · simp; omega
+          · simpa using d3 b hn
+          · simp
+          · simpa using hge
+        · intro h; simp [stepT] at h
+  | true =>
+    obtain ⟨u1, u2, u3, u4, u5⟩ := hU rfl
+    simp only at u1 u2 u3 u4 u5
+    cases st with
+    | pin c =>
+      refine ⟨⟨rfl, rfl, rfl, hsnap, ?_, ?_⟩, rfl⟩
+      · intro _
+        refine ⟨Nat.le_refl _, Nat.le_refl _, ?_, ?_, ?_⟩
+        · intro e he
+          simp only [stepT, if_true, List.mem_cons] at he
+          rcases he with he | he
+          · subst he; exact Nat.le_refl _
+          · have := u3 e he
+            show e.1 ≤ tidx + 1
+            omega
+        · intro h; simp [stepT] at h
+        · intro b hb
+          have := u5 b hb
+          unfold leTI at this ⊢
+          show b.term < tcur ∨ (tcur = b.term ∧ b.idx ≤ tidx + 1)
+          omega
+      · intro h; simp [stepT] at h
+    | unpin c =>
+      refine ⟨⟨rfl, rfl, rfl, hsnap, ?_, ?_⟩, rfl⟩
+      · intro _
+        refine ⟨Nat.le_refl _, Nat.le_refl _, ?_, ?_, ?_⟩
+        · intro e he
+          simp only [stepT, if_true, List.mem_cons] at he
+          rcases he with he | he
+          · subst he; exact Nat.le_refl _
+          · have := u3 e he
+            show e.1 ≤ tidx + 1
+            omega
+        · intro h; simp [stepT] at h
+        · intro b hb
+          have := u5 b hb
+          unfold leTI at this ⊢
+          show b.term < tcur ∨ (tcur = b.term ∧ b.idx ≤ tidx + 1)
+          omega
+      · intro h; simp [stepT] at h
+    | snapshot =>
+      cases tinit with
+      | false => exact ⟨⟨rfl, rfl, rfl, hsnap, hU, hD⟩, rfl⟩
+      | true =>
+        have hnew := ft_newest_cons_of_ge ⟨tlterm, tlidx, tlive⟩ tsnaps u5
+        refine ⟨⟨rfl, rfl, rfl, ?_, ?_, ?_⟩, rfl⟩
+        · simp [stepT, step, takeSnap, hnew]
+        · intro _
+          refine ⟨u1, u2, u3, ?_, ?_⟩
+          · intro h; simp [stepT, takeSnap] at h
+          · intro b hb
+            simp only [stepT, takeSnap, if_true, List.mem_cons] at hb
+            rcases hb with hb | hb
+            · subst hb; exact Or.inr ⟨rfl, Nat.le_refl _⟩
+            · exact u5 b hb
+        · intro h; simp [stepT, takeSnap] at h
+    | shutdown =>
+      cases tinit with
+      | false =>
+        obtain ⟨e1, e2⟩ := u4 rfl
+        subst e1 e2
+        refine ⟨⟨rfl, rfl, rfl, ?_, ?_, ?_⟩, rfl⟩
+        · simpa [stepT, step, takeSnap] using hsnap
+        · intro h; simp [stepT, takeSnap] at h
+        · intro _; simp [stepT, takeSnap, DownInv, newest]
+      | true =>
+        have hnew := ft_newest_cons_of_ge ⟨tlterm, tlidx, tlive⟩ tsnaps u5
+        refine ⟨⟨rfl, rfl, rfl, ?_, ?_, ?_⟩, rfl⟩
+        · simp [stepT, step, takeSnap, hnew]
+        · intro h; simp [stepT, takeSnap] at h
+        · intro _
+          simp only [stepT, takeSnap, if_true, DownInv, hnew]
+          refine ⟨?_, ?_, ?_⟩
+          · intro b hb
+            rcases List.mem_cons.mp hb with hb | hb
+            · subst hb; show tlterm ≤ tcur + 1; omega
+            · have := u5 b hb
+              unfold leTI at this
+              omega
+          · intro h; cases h
+          · intro b hb e he
+            cases hb
+            exact u3 e he
+    | offline => exact ⟨⟨rfl, rfl, rfl, hsnap, hU, hD⟩, rfl⟩
+    | importSt m => exact ⟨⟨rfl, rfl, rfl, hsnap, hU, hD⟩, rfl⟩
+    | clean => exact ⟨⟨rfl, rfl, rfl, hsnap, hU, hD⟩, rfl⟩
+    | restart => exact ⟨⟨rfl, rfl, rfl, hsnap, hU, hD⟩, rfl⟩
+
+/-- THE refinement theorem: from related states, on every history without a metadata-keeping import, the term-aware
+    folder (what the code does) and the intended folder produce the same observations -/
+theorem term_model_refines_intended_from : ∀ (steps : List Step) (t : TSt) (s : St), Sim t s → keptImports t steps = 0 →
+    runTraceT t steps = runTrace s steps
+  | [], _, _, _, _ => rfl
+  | st :: rest, t, s, h, hk => by
+    simp only [keptImports] at hk
+    have hk1 : (stepT t st).2 ≠ .kept := by
+      intro he
+      simp [he] at hk
+    have hk2 : keptImports (stepT t st).1 rest = 0 := by omega
+    obtain ⟨hs, hr⟩ := sim_step t s h st hk1
+    simp only [runTraceT, runTrace]
+    rw [term_model_refines_intended_from rest _ _ hs hk2, hr, sim_visible _ _ hs]
+
+theorem sim_init : Sim {} {} := by
+  refine ⟨rfl, rfl, rfl, rfl, ?_, ?_⟩
+  · intro h; cases h
+  · intro _; simp [DownInv, newest]
+
+/-- … from the empty folder -/
+theorem term_model_refines_intended (steps : List Step) (hk : keptImports {} steps = 0) :
+    runTraceT {} steps = runTrace {} steps :=
+  term_model_refines_intended_from steps _ _ sim_init hk
+
+/-- the hypothesis is met by a 13-step history with a fresh import, a cleanup, restarts and operations in several terms -/
+example : keptImports {} [.restart, .pin 7, .shutdown, .clean, .importSt [3, 1], .restart, .pin 5, .snapshot, .unpin 3,
+    .shutdown, .offline, .restart, .shutdown] = 0 := by decide
+
+
+theorem ft_shutdown_newest (t : TSt) (s : St) (h : Sim t s) (hu : t.up = true) (hi : t.init = true) :
+    newest (stepT t .shutdown).1.snaps = some ⟨t.lterm, t.lidx, t.live⟩ := by
+  obtain ⟨_, _, _, _, hU, _⟩ := h
+  obtain ⟨_, _, _, _, u5⟩ := hU hu
+  simp only [stepT, hu, takeSnap, hi, if_true]
+  exact ft_newest_cons_of_ge ⟨t.lterm, t.lidx, t.live⟩ t.snaps u5
+
+/-- … and on such a history EVERY clean shutdown leaves its snapshot as the folder's newest one: the arm of K01e
+    (`staleShutdowns > 0`) needs a metadata-keeping import -/
+theorem no_stale_shutdown_without_kept_import_from : ∀ (steps : List Step) (t : TSt) (s : St), Sim t s →
+    keptImports t steps = 0 → staleShutdowns t steps = 0
+  | [], _, _, _, _ => rfl
+  | st :: rest, t, s, h, hk => by
+    simp only [keptImports] at hk
+    have hk1 : (stepT t st).2 ≠ .kept := by
+      intro he
+      simp [he] at hk
+    have hk2 : keptImports (stepT t st).1 rest = 0 := by omega
+    obtain ⟨hs, _⟩ := sim_step t s h st hk1
+    have ih := no_stale_shutdown_without_kept_import_from rest _ _ hs hk2
+    simp only [staleShutdowns, ih, Nat.add_zero]
+    by_cases hc : st = .shutdown ∧ t.up = true ∧ t.init = true
+    · obtain ⟨h1, h2, h3⟩ := hc
+      subst h1
+      simp [ft_shutdown_newest t s h h2 h3]
+    · rw [if_neg]
+      intro hcond
+      simp only [Bool.and_eq_true, beq_iff_eq] at hcond
+      exact hc ⟨hcond.1.1.1, hcond.1.1.2, hcond.1.2⟩
+
+theorem no_stale_shutdown_without_kept_import (steps : List Step) (hk : keptImports {} steps = 0) :
+    staleShutdowns {} steps = 0 :=
+  no_stale_shutdown_without_kept_import_from steps _ _ sim_init hk
+
+/-- the hypothesis cannot be dropped: the K01e history has one kept import and one stale shutdown -/
+example : keptImports {} [.restart, .pin 7, .shutdown, .importSt [0, 2], .restart, .pin 5, .shutdown, .offline] = 1 ∧
+    staleShutdowns {} [.restart, .pin 7, .shutdown, .importSt [0, 2], .restart, .pin 5, .shutdown, .offline] = 1 := by decide
+
 end CV.C01.Folder
